@@ -73,7 +73,7 @@ func c08NewSA(in c08In) (*security.IKESAKey, []byte, error) {
 }
 
 var c08History = probe.Define("C08", "history", func(t *rapid.T) c08In {
-	in := c08In{Prf: rapid.IntRange(0, 2).Draw(t, "prf"), ViaIKE: rapid.IntRange(0, 3).Draw(t, "viaike") == 3}
+	in := c08In{Prf: rapid.IntRange(0, 2).Draw(t, "prf"), ViaIKE: rapid.IntRange(0, 2).Draw(t, "viaike") == 2}
 	if in.ViaIKE {
 		in.Nonce, in.Secret = gen.BytesLen(t, "ikenonce", 1, 80, 32), gen.BytesLen(t, "ikesecret", 1, 256, 128, 256)
 	} else {
@@ -96,6 +96,35 @@ var c08History = probe.Define("C08", "history", func(t *rapid.T) c08In {
 			st.SPI = 0xc0ffee01 // several Child SAs of the history carry the same SPI (a re-keyed SA, inbound and outbound halves)
 		case 5:
 			st.SPI = uint32(rapid.IntRange(1, 3).Draw(t, "smallspi"))
+		}
+		// nonces RELATED to what the IKE SA has seen before: the nonces the IKE SA itself was keyed with (the first Child SA of an
+		// IKE SA is keyed with the IKE_SA_INIT nonces - and an implementation may do so again), the previous exchange's nonces
+		// once more, an extension of them, a prefix of them, nonces that carry their own payload header in front
+		var prev model.Bytes
+		if i > 0 {
+			prev = in.Steps[i-1].Nonce
+		}
+		switch rapid.IntRange(0, 15).Draw(t, "nonce-relation") {
+		case 10, 11:
+			if in.ViaIKE {
+				st.Nonce = append(model.Bytes(nil), in.Nonce...)
+			}
+		case 12:
+			if i > 0 {
+				st.Nonce = append(model.Bytes(nil), prev...)
+			}
+		case 13:
+			if i > 0 {
+				st.Nonce = append(append(model.Bytes(nil), prev...), gen.BytesLen(t, "nonce-extension", 1, 40, 1, 16)...)
+			}
+		case 14:
+			if len(prev) > 1 {
+				st.Nonce = append(model.Bytes(nil), prev[:rapid.IntRange(1, len(prev)-1).Draw(t, "nonce-prefix")]...)
+			}
+		case 15:
+			body := gen.BytesLen(t, "nonce-body", 12, 60, 16, 32)
+			n := len(body) + 4
+			st.Nonce = append(model.Bytes{rapid.SampledFrom([]byte{0, 41, 44}).Draw(t, "nonce-next"), 0, byte(n >> 8), byte(n)}, body...)
 		}
 		if i > 0 && rapid.IntRange(0, 3).Draw(t, "same-suite-as-before") == 3 {
 			st.Encr, st.Integ = in.Steps[i-1].Encr, in.Steps[i-1].Integ // same transforms, other nonces
@@ -233,8 +262,10 @@ var c08History = probe.Define("C08", "history", func(t *rapid.T) c08In {
 
 func TestC08(t *testing.T) {
 	c := probe.NewCtx(t, "C08")
+	idleStart(c, "child-keys")
 	if c.Shard == 0 {
 		endurance(c, "C08", "child-keys", 2300)
 	}
 	c08History.Run(c, t, c.N(500, 5000))
+	idleFinish(c, "C08", "child-keys")
 }
